@@ -146,3 +146,37 @@ pub fn gen_pool_hist(r: &mut Rng, stable: bool) -> PoolInfo {
     }
     p
 }
+
+/// modular inverse of `a` modulo `m` (both < 2^120), if coprime
+pub fn inv_mod(a: u128, m: u128) -> Option<u128> {
+    let (mut r0, mut r1) = (m as i128, (a % m) as i128);
+    let (mut t0, mut t1) = (0i128, 1i128);
+    while r1 != 0 {
+        let q = r0 / r1;
+        let r2 = r0 - q * r1; r0 = r1; r1 = r2;
+        let t2 = t0 - q * t1; t0 = t1; t1 = t2;
+    }
+    if r0 != 1 { return None; }
+    Some(if t0 < 0 { (t0 + m as i128) as u128 } else { t0 as u128 })
+}
+
+/// "18-digit sliver" inputs for a constant-product swap: reserves x, y and an offer dx with
+/// x*y ≡ ±k (mod x+dx) for a tiny k and x+dx > 10^18, so that x*y/(x+dx) (resp. y*dx/(x+dx)) lies within
+/// 10^-18 of an integer — where an 18-digit fixed-point intermediate rounds differently from the
+/// exact quotient.
+pub fn sliver_cp(r: &mut Rng) -> Option<(u128, u128, u128)> {
+    for _ in 0..20 {
+        let mag = 19 + r.below(10) as u32;                   // modulus 10^19 .. 10^28
+        let m = 10u128.pow(mag) / 3 + r.u128() % 10u128.pow(mag);
+        let dx = match r.below(3) { 0 => m / 1000 + r.u128() % 1000, 1 => m / 300 + 1, _ => 1 + r.u128() % (m / 2) };
+        let x = m - dx;
+        let Some(inv) = inv_mod(x, m) else { continue };
+        let k = 1 + r.below(4) as u128;
+        let k = if r.chance(1, 2) { k } else { m - k };
+        // y = k * inv mod m, computed without overflow (k < 2^95, inv < 2^95 is not guaranteed: use 256-bit)
+        let y = (cosmwasm_std::Uint256::from(k) * cosmwasm_std::Uint256::from(inv) % cosmwasm_std::Uint256::from(m)).to_string().parse::<u128>().ok()?;
+        if y < 1000 { continue; }
+        return Some((x, y, dx));
+    }
+    None
+}
